@@ -50,6 +50,8 @@ func ladderID(n int) string {
 func seqRun(w *World, coll bool) {
 	t := w.Tape
 	cfg := resCfg{Coll: coll}
+	// (an equivalence is about what subscribers are told: what is stored, returned and read is the same with or without)
+	cfg.Equiv = t.Flag(1, 4)
 	// writable fields
 	switch t.Choose(4) {
 	case 1:
@@ -297,6 +299,9 @@ func seqRun(w *World, coll bool) {
 		isWrite := o.Kind == opSet || o.Kind == opAdd || o.Kind == opUpdate || o.Kind == opDelete
 		if isWrite && got.Code == codes.OK && !(o.Kind == opDelete && !got.HasMsg) {
 			wantEv = 1
+		}
+		if cfg.Equiv && wantEv == 1 && len(newEv) == 0 && before.contentsString() == m.contentsString() {
+			wantEv = 0 // (the resource was told not to announce duplicates, and this write left what there was)
 		}
 		if len(newEv) != wantEv {
 			w.Violate("event-count", fmt.Sprintf("call %d: %s -> %s emitted %d events (%s), expected %d", i, o, got, len(newEv), eventsString(newEv), wantEv),
